@@ -742,3 +742,116 @@ Proof.
     + rewrite elems_unfold. cbn [fields]. rewrite Z.eqb_refl. apply elems_of_cons_empty. apply fields_nonnil.
   - apply (Main 0 (c :: s')); [left; reflexivity|reflexivity|cbn; exact Ec|cbn; exact Ec|exact HF|apply elems_unfold].
 Qed.
+
+(* ---- the proved class lies inside `plain`, is closed under std_normal; idempotence on it ------ *)
+Lemma In_elems_fields : forall s e, In e (elems s) -> In e (fields s).
+Proof.
+  intros s e H. rewrite elems_unfold in H. unfold elems_of in H.
+  pose proof (fields_nonnil s) as N. destruct (exists_last N) as (X & l & E). rewrite E in *.
+  rewrite removelast_app1, last_app1 in H.
+  assert (Hn : forall x, In x (filter (fun e => negb (is_empty e)) X) -> In x (X ++ [l])).
+  { intros x Hx. apply filter_In in Hx as [Hx _]. apply in_or_app. left. exact Hx. }
+  destruct (filter (fun e => negb (is_empty e)) X) as [|n names].
+  - destruct (is_empty l); [destruct H|]. destruct H as [<- | []]. apply in_or_app. right. left. reflexivity.
+  - apply in_app_or in H as [H | [<- | []]]; [apply Hn; exact H|apply in_or_app; right; left; reflexivity].
+Qed.
+
+Lemma all_dots_ends : forall e, all_dots e = true -> (2 <= length e)%nat -> ends_dotdot e = true.
+Proof.
+  induction e as [|a e IH]; intros H L; [cbn in L; lia|].
+  destruct e as [|b [|c e'']]; [cbn in L; lia| |].
+  - cbn in H. cbn. apply andb_true_iff in H as [H1 H2]. apply andb_true_iff in H2 as [H2 _]. rewrite H1, H2. reflexivity.
+  - change (ends_dotdot (a :: b :: c :: e'')) with (ends_dotdot (b :: c :: e'')). apply IH; [|cbn; lia].
+    cbn [all_dots] in H. apply andb_true_iff in H as [_ H]. exact H.
+Qed.
+
+Lemma no_dotdot_tail_plain : forall s, no_dotdot_tail s = true -> plain s = true.
+Proof.
+  intros s H. unfold no_dotdot_tail in H. apply andb_true_iff in H as [HA HF].
+  assert (HE : forall e, In e (elems s) -> ends_dotdot e = false).
+  { intros e He. rewrite forallb_forall in HF. apply negb_true_iff. apply HF. apply In_elems_fields. exact He. }
+  unfold plain. rewrite HA. cbn [andb].
+  assert (class_B s = false) as ->.
+  { unfold class_B. destruct (existsb _ (elems s)) eqn:E; [|reflexivity].
+    apply existsb_exists in E as (e & He & P). apply andb_true_iff in P as [P1 P2].
+    apply Nat.leb_le in P2. pose proof (HE e He) as Q. rewrite (all_dots_ends e P1 ltac:(lia)) in Q. discriminate. }
+  assert (class_C s = false) as ->.
+  { unfold class_C. destruct (existsb _ (elems s)) eqn:E; [|reflexivity].
+    apply existsb_exists in E as (e & He & P). apply andb_true_iff in P as [_ P]. rewrite (HE e He) in P. discriminate. }
+  assert (class_D s = false) as ->.
+  { unfold class_D. destruct (existsb is_dotdot (elems s)) eqn:E; [|reflexivity].
+    apply existsb_exists in E as (e & He & P). apply is_dotdot_eq in P. subst e.
+    specialize (HE _ He). cbn in HE. discriminate. }
+  reflexivity.
+Qed.
+
+Lemma normal_elems_forall : forall (P : elem -> Prop) R es, P [DOT] -> P [] -> Forall P es ->
+  Forall P (normal_elems R es).
+Proof.
+  intros P R es Pd Pe H. unfold normal_elems.
+  pose proof (fold_forall P R es [] false (Forall_nil _) H) as F.
+  destruct (fold_left (norm_step R) es ([], false)) as [out trail]. cbn [fst] in F.
+  unfold norm_finish. destruct out as [|x out'].
+  - destruct R; [constructor|repeat constructor; exact Pd].
+  - assert (Forall P (rev (x :: out'))) by (apply Forall_rev; exact F).
+    destruct (is_dotdot x); [assumption|]. destruct trail; [|assumption].
+    apply Forall_app. split; [assumption|repeat constructor; exact Pe].
+Qed.
+
+Lemma fields_forall_bytes : forall (Q : Z -> Prop) s, Forall Q s -> Forall (Forall Q) (fields s).
+Proof.
+  intros Q. induction s as [|c s IH]; intro H; cbn [fields]; [repeat constructor|].
+  inversion H; subst. specialize (IH H3). destruct (c =? SEP); [constructor; [constructor|exact IH]|].
+  destruct (fields s) as [|f fs]; [repeat constructor; assumption|].
+  inversion IH; subst. constructor; [constructor; assumption|assumption].
+Qed.
+
+Lemma join_forall_bytes : forall (Q : Z -> Prop) es, Q SEP -> Forall (Forall Q) es -> Forall Q (join_elems es).
+Proof.
+  intros Q es Qs. induction es as [|e es IH]; intro H; [constructor|].
+  inversion H; subst. destruct es as [|e2 es']; [exact H2|].
+  change (join_elems (e :: e2 :: es')) with (e ++ SEP :: join_elems (e2 :: es')).
+  apply Forall_app. split; [exact H2|constructor; [exact Qs|apply IH; exact H3]].
+Qed.
+
+Lemma std_normal_in_class : forall s, c_string s -> no_dotdot_tail s = true ->
+  c_string (std_normal s) /\ no_dotdot_tail (std_normal s) = true.
+Proof.
+  intros s Hc H. destruct s as [|c s']; [split; [constructor|reflexivity]|].
+  set (s := c :: s') in *. change (std_normal s) with (render (has_root s) (normal_elems (has_root s) (elems s))).
+  pose proof (normal_elems_wf s) as W. set (es' := normal_elems (has_root s) (elems s)) in *.
+  unfold no_dotdot_tail in H. apply andb_true_iff in H as [_ HF].
+  split.
+  - (* bytes *)
+    assert (Forall (Forall (fun x => x <> 0)) es').
+    { apply normal_elems_forall; [repeat constructor; discriminate|constructor|].
+      apply Forall_forall. intros e He. apply In_elems_fields in He.
+      pose proof (fields_forall_bytes (fun x => x <> 0) s Hc) as FB. rewrite Forall_forall in FB. apply FB. exact He. }
+    unfold c_string, render. apply Forall_app. split.
+    + destruct (has_root s); repeat constructor. discriminate.
+    + apply join_forall_bytes; [discriminate|assumption].
+  - (* class *)
+    assert (HP : Forall (fun e => ends_dotdot e = false) es').
+    { apply normal_elems_forall; [reflexivity|reflexivity|].
+      apply Forall_forall. intros e He. apply In_elems_fields in He.
+      rewrite forallb_forall in HF. apply negb_true_iff. apply HF. exact He. }
+    assert (HJ : forallb (fun e => negb (ends_dotdot e)) (fields (join_elems es')) = true).
+    { destruct es' as [|e0 es0] eqn:E; [reflexivity|].
+      rewrite fields_join; [|apply wf_sepfree; exact W|discriminate].
+      apply forallb_forall. intros x Hx. rewrite Forall_forall in HP. rewrite (HP x Hx). reflexivity. }
+    pose proof (wf_head_not_sep es' W) as HR.
+    unfold no_dotdot_tail, render. destruct (has_root s); cbn [app].
+    + apply andb_true_iff. split.
+      * unfold class_A. destruct (join_elems es') as [|d t]; [reflexivity|]. cbn in HR. rewrite HR, andb_false_r. reflexivity.
+      * cbn [fields]. rewrite Z.eqb_refl. cbn [forallb ends_dotdot negb andb]. exact HJ.
+    + apply andb_true_iff. split; [|exact HJ].
+      unfold class_A. destruct (join_elems es') as [|d [|d2 t]]; [reflexivity|reflexivity|]. cbn in HR. rewrite HR. reflexivity.
+Qed.
+
+Lemma zix_normal_idem_on_class : forall s, c_string s -> no_dotdot_tail s = true ->
+  zix_normal (zix_normal s) = zix_normal s.
+Proof.
+  intros s Hc H. unfold zix_normal at 2 3. rewrite (zix_normal_on_class s Hc H).
+  destruct (std_normal_in_class s Hc H) as [Hc' H']. unfold zix_normal.
+  rewrite (zix_normal_on_class _ Hc' H'). apply std_normal_idem.
+Qed.
